@@ -103,6 +103,62 @@ def run_bundle(name, tier, seed, profile="rel", specs=ALL_SPECS):
     return res
 
 
+def run_pair_bundle(name, tier, seed, specs=ALL_SPECS):
+    """Two batches executing the same scenarios (C17: two build profiles; C13: adaptor and underlying iterator)."""
+    key = "pair_%s_%s_%d_%s_%s" % (name, tier, seed, engine.repo_hash(), engine.verif_hash())
+    c = engine.cache_get(key)
+    wa = os.path.join(WORK, "bundles", key + "_a")
+    wb = os.path.join(WORK, "bundles", key + "_b")
+    if c and os.path.isdir(wa) and os.path.isdir(wb):
+        c["cached"] = True
+        return c
+    t0 = time.time()
+    for d in (wa, wb):
+        if os.path.isdir(d):
+            shutil.rmtree(d)
+    if name == "dual":
+        sc, meta = suites.dual_suite(tier, seed, 1)
+        parts_a, info_a = engine.run_scenarios(sc, wa, "dbg")
+        parts_b, info_b = engine.run_scenarios(sc, wb, "rel")
+        mode = "dual"
+    else:
+        (sa, sb), meta = suites.twin_suite(tier, seed, 1)
+        parts_a, info_a = engine.run_scenarios(sa, wa, "rel")
+        parts_b, info_b = engine.run_scenarios(sb, wb, "rel")
+        mode = "twin"
+    t1 = time.time()
+    va = engine.validate(parts_a, specs)
+    vb = engine.validate(parts_b, specs)
+    tw = engine.validate_twin(parts_a, parts_b, mode)
+    t2 = time.time()
+    runs = {}
+    for rid, events in engine.load_runs(parts_a).items():
+        f = facts_of(events)
+        f["side"] = "a"
+        runs[str(rid)] = f
+    for rid, events in engine.load_runs(parts_b).items():
+        f = facts_of(events)
+        f["side"] = "b"
+        runs["b%d" % rid] = f
+    viol = {s: list(va[s]["viol"]) + [["b%d" % v[0]] + list(v[1:]) for v in vb[s]["viol"]] for s in specs}
+    viol["TraceTwin"] = [[v[0], v[1]] for v in tw["viol"]]
+    div = {s: list(va[s]["div"]) + list(vb[s]["div"]) for s in specs}
+    res = {"name": name, "tier": tier, "seed": seed, "workdir": wa, "workdir_b": wb, "nruns": len(runs),
+           "metas": {name + "_suite": meta}, "info": [info_a, info_b], "viol": viol, "div": div,
+           "events": va[specs[0]]["events"] + vb[specs[0]]["events"],
+           "seen": va["TraceProps"]["seen"], "matched": {"TraceTwin": tw["matched"],
+                                                         **{s: [x + y for x, y in zip(va[s]["matched"], vb[s]["matched"])] for s in specs}},
+           "runs": runs, "wall": {"harness": round(t1 - t0, 1), "tlc": round(t2 - t1, 1)}, "cached": False}
+    engine.cache_put(key, res)
+    return res
+
+
+def get_bundle(name, tier, seed):
+    if name in ("dual", "twin"):
+        return run_pair_bundle(name, tier, seed)
+    return run_bundle(name, tier, seed)
+
+
 def run_trace(workdir, rid):
     """events of run rid of a bundle."""
     out = []
@@ -182,7 +238,9 @@ PLANS = {
     "C11": dict(e1=["counter_skipq", "counter_owner", "counter_3t", "ticket_skip", "ticket_query", "ticket_owner"], inv=["Inv_C11"], bundles=["core"]),
     "C12": dict(e1=["counter_comp", "ticket_comp"], inv=["Inv_C12", "Inv_C01", "Inv_C02"], bundles=["core"],
                 extra_flags={"comp": ["NoDup", "NoLoss", "Index", "Hang"]}),
+    "C13": dict(e1=[], inv=[], bundles=["twin"], flags=["Differs", "CloneCount", "SrcDropped", "SrcModified"]),
     "C15": dict(e1=[], inv=[], bundles=["core"], only=lambda f: f["consuming"]),
+    "C17": dict(e1=[], inv=[], bundles=["dual"], flags=["Differs", "Abort", "Panic"]),
     "C18": dict(e1=["ticket_panic1", "ticket_panic2"], inv=["Inv_C01", "Inv_C07_Mutex"], bundles=["panic"], deadlock=True,
                 flags=["Hang", "NoDup", "OwnTwice", "OwnNever", "OwnGarbage", "Mutex"]),
 }
@@ -240,7 +298,7 @@ def decide(pid, tier, seed, t0):
     samples = []
     seen_flags = {}
     for bname in plan.get("bundles", []):
-        b = run_bundle(bname, tier, seed)
+        b = get_bundle(bname, tier, seed)
         bundles.append(b)
         only = plan.get("only")
         runs = b["runs"]
@@ -250,11 +308,13 @@ def decide(pid, tier, seed, t0):
         vio = list(b["viol"].get("TraceProps", []))
         if plan.get("hb"):
             vio += b["viol"].get("TraceHB", [])
+        vio += b["viol"].get("TraceTwin", [])
         extra = plan.get("extra_flags", {})
         per_run = {}
-        for rid, fl in vio:
-            f = runs.get(str(rid))
-            if f is None or str(rid) not in rel:
+        for v in vio:
+            rid, fl = str(v[0]), v[1]
+            f = runs.get(rid)
+            if f is None or rid not in rel:
                 continue
             ok = fl in flags
             if not ok and "skip" in extra and f["skip"] and fl in extra["skip"]:
@@ -263,8 +323,8 @@ def decide(pid, tier, seed, t0):
                 ok = True
             if ok:
                 per_run.setdefault(rid, []).append(fl)
-        for rid, fls in sorted(per_run.items()):
-            f = runs[str(rid)]
+        for rid, fls in sorted(per_run.items(), key=lambda kv: (len(kv[0]), kv[0])):
+            f = runs[rid]
             unknown = []
             for fl in fls:
                 kf = [k for k in known if matches(k, pid, fl, f)]
@@ -277,8 +337,10 @@ def decide(pid, tier, seed, t0):
                 if sum(1 for v in violations if v[2]) < 5:
                     path = write_replay(pid, "%s-%s" % (bname, rid),
                                         {"engine": "E2", "bundle": bname, "flags": unknown, "facts": f,
-                                         "scenario": scenario_at(b["workdir"], f["idx"]),
-                                         "trace": run_trace(b["workdir"], rid)})
+                                         "scenario": scenario_at(b["workdir_b"] if f.get("side") == "b" else b["workdir"], f["idx"]),
+                                         "trace": run_trace(b["workdir_b"] if f.get("side") == "b" else b["workdir"], f["run"]),
+                                         "trace_other_side": (run_trace(b["workdir_b"] if f.get("side") == "a" else b["workdir"], f["run"])
+                                                              if "side" in f else [])})
                 violations.append(("E2 %s run %s (%s, %s)" % (bname, rid, f["kind"], f["suite"]), ",".join(unknown), path))
         ndiv = sum(len(v) for v in b["div"].values())
         if ndiv:
@@ -286,7 +348,7 @@ def decide(pid, tier, seed, t0):
             notes.append("NOTE model-drift: %d events of bundle %s are not steps of the implementation-level model "
                          "(e.g. %s); exhaustiveness is not transferred to the code for those runs" % (ndiv, bname, ex))
         if len(samples) < 3 and rel:
-            rid = sorted(rel, key=int)[min(len(rel) - 1, 7 * (len(samples) + 1))]
+            rid = sorted((r for r in rel if not r.startswith("b")), key=int)[min(len(rel) - 1, 7 * (len(samples) + 1)) % max(1, len([r for r in rel if not r.startswith("b")]))]
             tr = run_trace(b["workdir"], int(rid))
             samples.append({"run": int(rid), "facts": runs[rid], "trace_head": tr[:25]})
     # ---- verdict --------------------------------------------------------------------------------
@@ -357,7 +419,7 @@ def write_evidence(pid, tier, seed, t0, e1, bundles, relevant, nontrivial, sampl
         json.dump(ev, f, indent=1)
 
 
-PLAN_LEVEL = {"C08": "exploration", "C15": "exploration"}
+PLAN_LEVEL = {"C08": "exploration", "C15": "exploration", "C13": "translation_validation", "C17": "translation_validation"}
 
 
 def replay(pid, path):
